@@ -77,15 +77,22 @@ pub fn run(args: &[String]) {
         let nq = if dense { 1 + rng.below(5) } else { 0 };
         let queries: Vec<f64> = (0..nq).map(|_| x0 + (xend - x0) * rng.range(-0.2, 1.2)).collect();
         let scalar_q = x0 + (xend - x0) * rng.range(0.0, 1.0);
+        // every fifth case with tolerances: rtol and/or atol given per component (a list, an ndarray or a tuple on the Python
+        // side, Tolerance::Vector on the Rust side)
+        let tolform = if tol.is_some() && method != Method::RK4 && id % 5 == 2 { 1 + (id / 5) % 3 } else { 0 };
+        let rvec: Option<Vec<f64>> = if tolform == 1 || tolform == 3 { tol.map(|t| (0..n).map(|i| t.0 * (1.0 + 0.5 * i as f64)).collect()) } else { None };
+        let avec: Option<Vec<f64>> = if tolform >= 2 { tol.map(|t| (0..n).map(|i| t.1 * (1.0 + i as f64)).collect()) } else { None };
         // --- the case, for Python
         let evs = if nev == 0 { "null".to_string() } else {
             format!("[{}]", p.events.iter().map(|e| format!("{{\"a\":{},\"b\":{},\"c\":{},\"dir\":{},\"pydir\":{},\"terminal\":{}}}", hq(e.a), hql(&e.b), hq(e.c), e.dir, (e.dir as f64) * [1.0, 0.5, 3.0, 0.25][(id + e.dir.unsigned_abs() as usize + e.b.len()) % 4], e.terminal.is_some())).collect::<Vec<_>>().join(","))
         };
-        writeln!(cf, "{{\"type\":\"solve\",\"id\":{},\"kind\":\"{:?}\",\"method\":{},\"x0\":{},\"xend\":{},\"rtol\":{},\"atol\":{},\"first_step\":{},\"max_step\":{},\"max_steps\":{},\"t_eval\":{},\"dense\":{},\"events\":{},\"events_as_list\":{},\"jac\":\"{}\",\"args\":{},\"queries\":{},\"scalar_query\":{}}}",
-            id, kind, pyname.map(|s| format!("\"{s}\"")).unwrap_or("null".into()), hq(x0), hq(xend), opt(tol.map(|t| t.0)), opt(tol.map(|t| t.1)), opt(first), opt(maxstep),
+        writeln!(cf, "{{\"type\":\"solve\",\"id\":{},\"kind\":\"{:?}\",\"method\":{},\"x0\":{},\"xend\":{},\"rtol\":{},\"atol\":{},\"rtol_vec\":{},\"atol_vec\":{},\"first_step\":{},\"max_step\":{},\"max_steps\":{},\"t_eval\":{},\"dense\":{},\"events\":{},\"events_as_list\":{},\"jac\":\"{}\",\"args\":{},\"queries\":{},\"scalar_query\":{}}}",
+            id, kind, pyname.map(|s| format!("\"{s}\"")).unwrap_or("null".into()), hq(x0), hq(xend), opt(tol.map(|t| t.0)), opt(tol.map(|t| t.1)), rvec.as_ref().map(|v| hql(v)).unwrap_or("null".into()), avec.as_ref().map(|v| hql(v)).unwrap_or("null".into()), opt(first), opt(maxstep),
             maxsteps.map(|v| v.to_string()).unwrap_or("null".into()), teval.as_ref().map(|v| hql(v)).unwrap_or("null".into()), dense, evs, as_list || nev != 1, jac, use_args, hql(&queries), hq(scalar_q)).unwrap();
         // --- the Rust run
         let mut o = match tol { Some((r, a)) => Options::builder().method(method).rtol(r).atol(a).build(), None => Options::builder().method(method).build() };
+        if let Some(v) = &rvec { o.rtol = ivp::methods::Tolerance::Vector(v.clone()); }
+        if let Some(v) = &avec { o.atol = ivp::methods::Tolerance::Vector(v.clone()); }
         o.first_step = first;
         o.max_step = maxstep;
         o.max_steps = maxsteps;
